@@ -216,7 +216,8 @@ func cmdCheck(args []string) {
 		// a tree that does not build cannot be verified; not a property verdict
 		os.Exit(2)
 	}
-	code := w.checkProperty(id, tier, seed, t0, true)
+	// (runs on deliberately mutated trees, tools/try_seeded.sh, must not overwrite the evidence of the real tree)
+	code := w.checkProperty(id, tier, seed, t0, os.Getenv("GOVC_NO_EVIDENCE") == "")
 	if tier == "thorough" && code == 0 {
 		runCanaries(id, seed)
 		// engine self-test (must-fail / must-pass corpus), once per build of govc
